@@ -9,11 +9,11 @@ R_SET = [1e9, 2.5e9, 10e9, 25e9, 12.5e9, 1e6, 40e9, 100e6, 10e9 / 3]      # the 
 WL_SET = [1550e-9, 1310e-9, 1549.32e-9, 1600e-9, 850e-9]
 
 
-def gen_gv_op(rng: random.Random, allow_N=True, max_total=4096):
+def gen_gv_op(rng: random.Random, allow_N=True, max_total=4096, extra_R=()):
     """A commensurate gv(...) call as data.  sps is drawn first, then R or fs is
     derived so that fs/R is an exact integer in floating point."""
     sps = rng.choice(SPS_SET)
-    R = rng.choice(R_SET)
+    R = rng.choice(R_SET + list(extra_R))
     fs = R * sps
     form = rng.choice(["sps,R", "sps,fs", "R,fs", "sps,R,fs", "sps,R", "sps,R"])
     kw = {}
@@ -23,6 +23,8 @@ def gen_gv_op(rng: random.Random, allow_N=True, max_total=4096):
         kw["R"] = R
     if "fs" in form.split(","):
         kw["fs"] = fs
+    if "sps" in kw and rng.random() < 0.12:
+        kw["sps"] = float(np.nextafter(float(sps), 0)) if rng.random() < 0.6 else float(sps)      # sps computed, not typed
     if "fs" in kw and "sps" not in kw and rng.random() < 0.3:
         # a sampling rate obtained from a sampling interval (fs = 1/dt): an ulp below the exact multiple of R
         kw["fs"] = float(np.nextafter(fs, 0))
@@ -35,6 +37,23 @@ def gen_gv_op(rng: random.Random, allow_N=True, max_total=4096):
     return {"op": "gv", "kw": kw}
 
 
+def relayout(arr, layout):
+    """The same values in another memory layout (what a caller's array may look like): Fortran order, a strided view of
+    a larger buffer, a negative-stride view."""
+    if arr is None or layout in (None, "C"):
+        return arr
+    a = np.asarray(arr)
+    if layout == "F":
+        return np.asfortranarray(a) if a.ndim > 1 else a
+    if layout == "strided":
+        big = np.zeros(a.shape[:-1] + (2 * a.shape[-1],), dtype=a.dtype)
+        big[..., ::2] = a
+        return big[..., ::2]
+    if layout == "neg":
+        return a[..., ::-1].copy()[..., ::-1]
+    raise ValueError(layout)
+
+
 def gv_kw(sps, R, style):
     """gv arguments for `sps` samples per slot at slot rate R: given directly, or as the pair (R, fs) with fs taken
     from a sampling interval (an ulp below / at the exact product)."""
@@ -42,6 +61,8 @@ def gv_kw(sps, R, style):
         return {"R": R, "fs": float(np.nextafter(R * sps, 0))}
     if style == "fs":
         return {"R": R, "fs": R * sps}
+    if style == "spsdt":        # samples per slot computed as (1/dt)/R: a float an ulp below the integer
+        return {"sps": float(np.nextafter(float(sps), 0)), "R": R}
     return {"sps": sps, "R": R}
 
 
